@@ -229,8 +229,9 @@ class _LineAdvance:
     def _read_offset(self, e, node):
         return self.cl.read_offset(e, node)
 
-    def instantiate(self, test, chars):
-        """test with every buffer read replaced by chars[offset] (unknown offsets are left alone)"""
+    def instantiate(self, test, chars, _depth=0):
+        """test with every buffer read replaced by chars[offset] (unknown offsets are left alone); a local that holds an
+        intermediate condition (one definition reaching the use) is replaced by that condition"""
         def repl(n):
             if isinstance(n, ast.Subscript):
                 off = self._read_offset(n, self.flow.node_of(n))
@@ -243,6 +244,10 @@ class _LineAdvance:
                     offs.add(self._read_offset(e, node) if kind == 'expr' else None)
                 if len(offs) == 1 and None not in offs and list(offs)[0] in chars:
                     return ast.Constant(chars[list(offs)[0]])
+                og = list(origins(self.flow, n, at))
+                if len(og) == 1 and og[0][0] == 'expr' and _depth < 3 and not isinstance(og[0][1], (ast.Call, ast.Name)) \
+                        and isinstance(og[0][1], (ast.Compare, ast.BoolOp, ast.UnaryOp)):
+                    return self.instantiate(og[0][1], chars, _depth + 1)
             return None
         return ast.fix_missing_locations(clone(test, repl))
 
